@@ -350,7 +350,10 @@ application_call:
 			break;
 		}
 
-		++_next_receive_seq;
+		// only a message that carried the expected number moves the expectation on: one above it is awaited again (a resend
+		// has been requested), a possible duplicate below it has been counted before; a sequence reset has set its own value
+		if (seqnum == _next_receive_seq || msg->get_msgtype() == Common_MsgType_SEQUENCE_RESET)
+			++_next_receive_seq;
 		if (retry_plog)
 			plog(from, Logger::Info, 1);
 
